@@ -1,5 +1,9 @@
 SPECIFICATION Spec
-CONSTANTS MaxLen = 3
+CONSTANTS Kinds = {"plain"}
+          MixedServerSet = {}
+          MixedCoreServers = {}
+          MixedMethKeys = {"G", "GP"}
+          MaxLen = 3
           MaxT = 3
           ServerSet = {"none", "rel", "relslash", "relroot", "abs", "absvar", "two", "psfirst", "pslast"}
           CoreLen = 3
